@@ -23,19 +23,25 @@ QUICK_OPS = {
     "list": ["append", "delitem", "clear", "reset", "insert", "pop"],
 }
 THOROUGH_OPS = {
-    "dict": ["setitem_new", "setitem_replace", "delitem", "pop", "popitem", "clear", "update_map", "update_two_new", "setdefault_new", "reset", "reset_larger", "reset_empty"],
-    "list": ["append", "setitem", "delitem", "insert", "extend", "pop", "pop_index", "clear", "reset", "reset_longer", "remove", "reverse", "iadd"],
+    "dict": ["setitem_new", "setitem_replace", "delitem", "pop", "popitem", "clear", "update_map", "setdefault_new", "reset", "reset_empty"],
+    "list": ["append", "setitem", "delitem", "insert", "extend", "pop", "clear", "reset", "reset_longer", "reverse"],
 }
+THREE_STEP_OPS = {"dict": ["setitem_new", "delitem", "clear", "update_two_new"], "list": ["append", "delitem", "clear", "insert"]}
+
+
+STEPS3 = False  # set by prog3 (thorough): 3-step programs on the JSON family with a smaller operation table
 
 
 def optable(kind):
+    if STEPS3:
+        return _by_name(ops.mutators(kind), THREE_STEP_OPS[kind])
     names = (THOROUGH_OPS if hlib.TIER == "thorough" else QUICK_OPS)[kind]
     return _by_name(ops.mutators(kind), names)
 
 
 def classes():
-    if hlib.TIER == "thorough":
-        return [FAM["JSON"], FAM["BufferedJSONAttr"], FAM["MemoryBufferedJSON"], FAM["Redis"], FAM["MongoDB"], FAM["Zarr"]]
+    if hlib.TIER == "thorough" and not STEPS3:
+        return [FAM["JSON"], FAM["MemoryBufferedJSONAttr"], FAM["Redis"]]
     return [FAM["JSON"]]
 
 
@@ -50,7 +56,7 @@ def prog(h1: int, o1: int, h2: int, o2: int, h3: int, o3: int, x: int, y: int, z
     cells = [(f, wh, ck) for f in classes() for wh in WHICH for ck in WHICH]
     fam, which, ckind = cells[hlib.PART % len(cells)]
     first = HSEL[(hlib.PART // len(cells)) % len(HSEL)]  # first handle fixed by the partition
-    nsteps = 3 if hlib.TIER == "thorough" else 2
+    nsteps = 3 if STEPS3 else 2
     hs = [first, pick(HSEL, h2)] + ([pick(HSEL, h3)] if nsteps == 3 else [])
     os_ = [o1, o2, o3][:nsteps]
     if None in hs:
@@ -98,9 +104,22 @@ def prog(h1: int, o1: int, h2: int, o2: int, h3: int, o3: int, x: int, y: int, z
     return finish(True, True)
 
 
+def prog3(h1: int, o1: int, h2: int, o2: int, h3: int, o3: int, x: int, y: int, z: int, v: int, w: int) -> bool:
+    """Three-step programs (thorough tier).
+    post: _
+    """
+    global STEPS3
+    STEPS3 = True
+    try:
+        return prog(h1, o1, h2, o2, h3, o3, x, y, z, v, w)
+    finally:
+        STEPS3 = False
+
+
 def plan(tier):
-    ncell = len([1 for f in range(1 if tier == "quick" else 6) for wh in WHICH for ck in WHICH])
-    return [{"fn": "prog", "nparts": ncell * len(HSEL), "timeout": 300 if tier == "quick" else 2400}]
+    if tier == "quick":
+        return [{"fn": "prog", "nparts": 4 * len(HSEL), "timeout": 300}]
+    return [{"fn": "prog", "nparts": 3 * 4 * len(HSEL), "timeout": 900}, {"fn": "prog3", "nparts": 4 * len(HSEL), "timeout": 900}]
 
 
 def smoke(tier):
@@ -125,7 +144,7 @@ FUNCTIONS = [
 ]
 BOUNDS = {
     "quick": {"classes": "JSONDict, JSONList roots x dict/list child", "handles": "2 root objects + a retained child of each + outside writer", "steps": 2, "mutators": QUICK_OPS, "leaves": "symbolic ints"},
-    "thorough": {"classes": "JSON, BufferedJSONAttr, MemoryBufferedJSON, Redis, MongoDB, Zarr families", "steps": 3, "mutators": THOROUGH_OPS},
+    "thorough": {"prog": {"classes": "JSON, MemoryBufferedJSONAttr, Redis families", "steps": 2, "mutators": THOROUGH_OPS}, "prog3": {"classes": "JSON family", "steps": 3, "mutators": THREE_STEP_OPS}},
 }
 ASSUMPTIONS = [
     "environment models of vf/env_model.py",
